@@ -7,6 +7,7 @@ package verifsim
 
 import (
 	"context"
+	"fmt"
 	"sync"
 	"time"
 
@@ -44,8 +45,13 @@ func (a c18Aggr) Flush(interval time.Duration) {
 	a.p.flushes = append(a.p.flushes, c18Flush{interval: interval, reading: a.p.now()})
 	a.p.mu.Unlock()
 }
-func (a c18Aggr) Process(f statsd.ProcessFunc) {}
-func (a c18Aggr) Reset()                       {}
+func (a c18Aggr) Process(f statsd.ProcessFunc) {
+	// hand the flusher a map so that it goes through its backends (their completion is part of a flush)
+	mm := gostatsd.NewMetricMap(false)
+	mm.Receive(&gostatsd.Metric{Name: "c18", Type: gostatsd.COUNTER, Value: 1, Rate: 1})
+	f(mm)
+}
+func (a c18Aggr) Reset() {}
 
 func (p *c18Proc) Process(ctx context.Context, fn statsd.DispatcherProcessFunc) gostatsd.Wait {
 	fn(0, c18Aggr{p})
@@ -53,6 +59,29 @@ func (p *c18Proc) Process(ctx context.Context, fn statsd.DispatcherProcessFunc) 
 		p.gate.Arrive("flush", nil) // a slow consumer: the flush does not complete until released
 	}
 	return func() {}
+}
+
+// c18Backend completes each send after an optional latency, with or without an error.
+type c18Backend struct {
+	name    string
+	latency time.Duration
+	failMod int // every failMod-th send reports an error (0 = never)
+	n       int
+}
+
+func (b *c18Backend) Name() string                                           { return b.name }
+func (b *c18Backend) SendEvent(ctx context.Context, e *gostatsd.Event) error { return nil }
+func (b *c18Backend) SendMetricsAsync(ctx context.Context, mm *gostatsd.MetricMap, cb gostatsd.SendCallback) {
+	b.n++
+	var errs []error
+	if b.failMod > 0 && b.n%b.failMod == 0 {
+		errs = []error{fmt.Errorf("simulated send failure")}
+	}
+	if b.latency == 0 {
+		cb(errs)
+		return
+	}
+	go func() { time.Sleep(b.latency); cb(errs) }()
 }
 
 func (p *c18Proc) n() int { p.mu.Lock(); defer p.mu.Unlock(); return len(p.flushes) }
@@ -63,7 +92,7 @@ func onGrid(t time.Time, interval, offset time.Duration) bool {
 }
 
 func (c18) Run(e *Env) {
-	e.ProbeDecl("regime-bubble", "regime-mock", "slow-consumer", "jump-over-several-intervals", "step-lands-on-boundary", "step-1ns-before-boundary", "offset-beyond-interval", "sub-second-interval", "non-round-interval", "start-on-boundary")
+	e.ProbeDecl("regime-bubble", "regime-mock", "slow-consumer", "jump-over-several-intervals", "step-lands-on-boundary", "step-1ns-before-boundary", "offset-beyond-interval", "sub-second-interval", "non-round-interval", "start-on-boundary", "backend-attached")
 	intervals := []time.Duration{time.Millisecond, 250 * time.Millisecond, 333 * time.Millisecond, time.Second, 1500 * time.Millisecond, 2500 * time.Millisecond, 7 * time.Second, 10 * time.Second, 90 * time.Second, time.Hour}
 	interval := intervals[e.Draw(len(intervals))]
 	if interval < time.Second {
@@ -111,7 +140,16 @@ func (c18) Run(e *Env) {
 	} else {
 		e.Probe("regime-bubble")
 	}
-	fl := statsd.NewMetricFlusher(interval, offset, true, proc, nil)
+	var backends []gostatsd.Backend
+	for i, n := 0, e.Draw(3); i < n; i++ {
+		b := &c18Backend{name: fmt.Sprintf("b%d", i), failMod: e.Draw(4)}
+		if !mockRegime && e.Bool() {
+			b.latency = time.Duration(1+e.Draw(200)) * interval / 1000 // up to a fifth of an interval
+		}
+		backends = append(backends, b)
+		e.Probe("backend-attached")
+	}
+	fl := statsd.NewMetricFlusher(interval, offset, true, proc, backends)
 	var wg sync.WaitGroup
 	wg.Add(1)
 	go func() { defer wg.Done(); fl.Run(ctx) }()
